@@ -11,8 +11,10 @@ For every program P:
   * disable family: every error code c reported for P x {--disable-error-code c, per-module
     disable_error_code via a config section for __main__, disable + --enable-error-code c, disabling the
     super-code of c};
-  * exit status: mypy.main.main on the baseline, on the full-set perturbation of every kind x warn, and on
-    every disable variant: 0 iff no error line, 2 iff build raised CompileError (blocker), else 1.
+  * exit status: mypy.main.main (in-process CLI lane) on the baseline, on the full-set perturbation of every
+    kind (unused-ignore reporting on), and on every `disable` / `per-module` variant: 0 iff no error line,
+    2 iff build raised CompileError (blocker), else 1.  Runs where main() refuses the command line before
+    building, or where mypy crashes (INTERNAL ERROR), are counted and not judged.
 
 Oracle: mc.c13_model (the documented rules applied to the baseline run's ErrorInfo objects).
 """
@@ -28,7 +30,7 @@ from mc import c13_lane as lane
 from mc import c13_model as model
 from mc import corpus
 from mc.common import Ctx, Result, Violation, log, same_diagnostics, scratch, seeded_order
-from mc.kernel import chunked, pmap, run_isolated, subsets
+from mc.kernel import pmap, run_isolated, subsets
 
 PROPERTY = "C13"
 LEVEL = "exploration"
@@ -38,8 +40,7 @@ WRONG_CANDIDATES = ("truthy-iterable", "str-bytes-safe", "unused-awaitable", "ty
 MAIN = "main"
 Q_FILES = 12
 Q_ANCHORS = ("check-errorcodes.test", "check-ignore.test")  # always in the quick slice: the densest ignore/unused-ignore inputs
-Q_PER_FILE = 70
-BATCH = 6
+Q_PER_FILE = 50
 MAX_FULL_SUBSETS = 5
 
 
@@ -581,6 +582,11 @@ def run_batch(work: list[tuple[dict, Any]]) -> dict:
             outcomes.add(r["outcome"])
     os.chdir("/")
     shutil.rmtree(root, ignore_errors=True)
+    for d in (os.path.dirname(root), os.path.dirname(os.path.dirname(root))):
+        try:
+            os.rmdir(d)  # only succeeds for a scratch root this worker created itself (no parent root) and left empty
+        except OSError:
+            pass
     return {"stats": dict(stats), "problems": problems, "samples": samples[:2], "nontrivial": nontrivial,
             "outcomes": sorted(outcomes), "herr": herr}
 
@@ -601,16 +607,35 @@ def estimate_error_lines(c: corpus.Case) -> int:
 
 
 def work_items(progs: list[dict]) -> list[list[tuple[dict, Any]]]:
-    heavy = [p for p in progs if p["est_lines"] > MAX_FULL_SUBSETS]
-    light = [p for p in progs if p["est_lines"] <= MAX_FULL_SUBSETS]
-    items: list[list[tuple[dict, Any]]] = []
-    for p in sorted(heavy, key=lambda p: -p["est_lines"]):
-        for kind in KINDS:
-            for warn in ("off", "on"):
-                items.append([(p, ("ignore", kind, warn))])
-        items.append([(p, "rest")])
-    items += [[(p, None) for p in ch] for ch in chunked(light, BATCH)]
-    return items
+    """Queue of work items, most expensive first (longest-processing-time packing over the 16 workers):
+    a program with more than 5 expected error lines is split into its 10 (kind, warn) slices + the rest."""
+
+    def cost(n: int) -> int:  # ~ number of perturbed runs of the ignore family
+        return 10 * ((2 ** n - 1) if n <= MAX_FULL_SUBSETS else (n + n * (n - 1) // 2 + 1)) + 8
+
+    items: list[tuple[int, list[tuple[dict, Any]]]] = []
+    light: list[dict] = []
+    for p in progs:
+        n = p["est_lines"]
+        if n > MAX_FULL_SUBSETS:
+            for kind in KINDS:
+                for warn in ("off", "on"):
+                    items.append((cost(n) // 10, [(p, ("ignore", kind, warn))]))
+            items.append((20, [(p, "rest")]))
+        else:
+            light.append(p)
+    cur: list[tuple[dict, Any]] = []
+    acc = 0
+    for p in sorted(light, key=lambda p: -p["est_lines"]):
+        cur.append((p, None))
+        acc += cost(p["est_lines"])
+        if acc >= 120 or len(cur) >= 8:
+            items.append((acc, cur))
+            cur, acc = [], 0
+    if cur:
+        items.append((acc, cur))
+    items.sort(key=lambda t: -t[0])
+    return [it for _c, it in items]
 
 
 def select_programs(ctx: Ctx) -> tuple[list[dict], dict]:
